@@ -15,7 +15,7 @@ def run(ctx):
     ctx.mc("IClient", "IClient.cfg", timeout=1200, heap="8g")
     rng = random.Random(ctx.seed)
     scs = scenarios.fam_faults(rng, ctx.thorough()) + scenarios.fam_events_server(rng, 30 if ctx.thorough() else 6) + scenarios.fam_udp(rng, 20 if ctx.thorough() else 4)
-    _node.run_family(ctx, scs, ["C14.", "C10.open_event_arrives", "C10.close_event_arrives_after_failure"], family="faults",
+    _node.run_family(ctx, scs, ["C14.", "C10.open_event_arrives", "C10.close_event_arrives_after_failure", "C12.no_socket_left_open"], family="faults",
                      timeout=120, workers=8, rule=(
         "read error on custom transports repeated 1..5 times; TCP client against a fake server that refuses, accepts-then-closes, "
         "drops an established connection (reconnect delay measured after every failure, reconnect period shortened to 100 ms through "
@@ -36,6 +36,11 @@ def timed(ctx):
     recs = vf.read_ndjson(tr)
     for (_, rejects, walked, _) in res:
         for (line, seq, kind, clauses, _) in rejects:
-            ctx.finding("TIMED:%s" % "+".join(sorted(clauses)), "timednetconn record rejected: %s" % clauses, recs[line - 1])
+            mine = [c for c in clauses if not c.startswith("H_")]
+            if mine:
+                ctx.finding("TIMED:%s" % "+".join(sorted(mine)), "timednetconn record rejected: %s" % mine, recs[line - 1])
+            elif not ctx.findings:
+                # the harness's own bookkeeping does not add up and nothing else was found: no verdict
+                raise vf.Inconclusive("timednetconn harness sanity clause failed: %s" % clauses)
     ctx.cov["timednetconn_operations"] = sum(len(r["ops"]) for r in recs)
     ctx.cov["traces_validated_against_impl"] += len(recs)
